@@ -729,6 +729,38 @@ zif_utc_time(zif_t z, stamp_t t)
 	while ((xj = __offs(z, t - xi)) != xi && xi != old) {
 		old = xi = xj;
 	}
+	if (LIKELY(__offs(z, t - xj) == xj)) {
+		/* T - XJ is an instant that is displayed as T */
+		return t - xj;
+	}
+	/* otherwise the iteration has ended on something that is not a
+	 * pre-image of T, either there is none (T is in a gap) or the
+	 * transitions around T are closer to each other than the offsets
+	 * are large, go through them and see if one of them fits */
+	if (z->cz == TZCZ_UNK && z->ntr > 0U && z->nty > 0U) {
+		int omin = z->ofs[0U];
+		int omax = z->ofs[0U];
+		int k;
+
+		for (size_t i = 1U; i < z->nty; i++) {
+			if (z->ofs[i] < omin) {
+				omin = z->ofs[i];
+			} else if (z->ofs[i] > omax) {
+				omax = z->ofs[i];
+			}
+		}
+		if ((k = __find_trno(z, t - omax, 0, z->ntr)) < 0) {
+			k = 0;
+		}
+		for (; k < (int)z->ntr && z->trs[k] <= t - omin; k++) {
+			const stamp_t u = t - _zif_troffs(z, k);
+
+			if (u >= z->trs[k] &&
+			    (k + 1 >= (int)z->ntr || u < z->trs[k + 1])) {
+				return u;
+			}
+		}
+	}
 	return t - xj;
 }
 
